@@ -95,8 +95,10 @@ func (c *Config) Merge(from interface{}, options ...Option) error {
 	if cfgRoot(other) == cfgRoot(c) {
 		// a Config passed directly is read in place. If it is c itself, a part
 		// of c, or a configuration c is a part of, merging would modify the
-		// source while reading it: merge a snapshot.
-		other = cfgSub{other}.cpy(context{}).(cfgSub).c
+		// source while reading it: merge a snapshot. The snapshot stays
+		// where the source is, references in it are looked up from the root
+		// of the configuration like those of the source.
+		other = cfgSub{other}.cpy(other.ctx).(cfgSub).c
 	}
 	return mergeInto(opts, c, other)
 }
